@@ -28,6 +28,9 @@ CONSTANTS MaxNodes,      \* nodes per document
           Vals,          \* scalar value classes: "g" good for the tag's type, "b" bad, "e" empty
           MaxEntries,    \* entries per collection
           ExtraBase, ExtraSafe, ExtraFull, ExtraUnsafe,   \* tags registered in the live tables of a class but unknown to this module
+          Kinds,         \* node kinds generated: subset of {"s", "q", "m"}
+          LeafKinds,     \* kinds of nodes without node children
+          KeyFillers,    \* plain keys generated: subset of {"k", "M", "V"}
           MustChain,     \* BOOLEAN: every node after the first refers to its predecessor (no unrelated top nodes)
           ConvFail       \* "err" | "crash": what a converter does on text outside its grammar (see DESIGN D2)
 
@@ -186,13 +189,16 @@ ScalarOf(c, h, nd, fn) ==
   ELSE [ok |-> FALSE, v |-> ""]
 
 \* find_python_name / find_python_module (constructor.py:525-563); unsafe = UnsafeConstructor
-Imported == {"res", "rescls", "noattr", "lazy", "builtin"}          \* name classes whose module is in sys.modules
+\* name classes whose module is in sys.modules: a function, a class, a missing attribute, an attribute served by the
+\* module's __getattr__, a builtin, an existing ITERATOR instance, a not yet imported SUBMODULE of an imported package
+Imported == {"res", "rescls", "noattr", "lazy", "builtin", "iter", "subunimp"}
 FindName(n, unsafe) ==
   IF n = "e" THEN Err({})
   ELSE LET ie == IF unsafe /\ n \notin Imported THEN {"import"} ELSE {} IN
        IF n = "missing" THEN Err(ie)
        ELSE IF n \notin Imported /\ ~unsafe THEN Err({})
        ELSE IF n = "noattr" THEN Err(ie \cup {"modgetattr"})
+       ELSE IF n = "subunimp" THEN Err(ie)              \* hasattr(package, 'plugin') is false: nothing is imported
        ELSE Ok({"attr"}, "attr", ie \cup {"getattr"} \cup (IF n = "lazy" THEN {"modgetattr"} ELSE {}))
 
 Unhashable == {"list", "dict", "set"}
@@ -322,7 +328,7 @@ Referenced(h) == UNION {{r.id : r \in RefsOfNode(h[i])} : i \in DOMAIN h}
 TopOf(h) == SelectSeq([i \in DOMAIN h |-> i], LAMBDA i : i \notin Referenced(h))
 
 RefsFor(i) == {N(j) : j \in 1 .. i - 1}
-KeySet(i) == {S("k"), S("M"), S("V")} \cup RefsFor(i)
+KeySet(i) == {S(f) : f \in KeyFillers} \cup RefsFor(i)
 ValSet(i) == {S("x")} \cup RefsFor(i)
 SeqsUpTo(Sx, n) == UNION {[1 .. m -> Sx] : m \in 0 .. n}
 HasNodeKid(nd) == RefsOfNode(nd) # {}
@@ -333,13 +339,14 @@ ChainOk(i, nd) == LET ks == {r.id : r \in RefsOfNode(nd)} IN (ks = {} /\ (i = 1 
 AddNode ==
   /\ Len(nodes) < MaxNodes
   /\ LET i == Len(nodes) + 1 IN
-     \E k \in {"s", "q", "m"} :
+     \E k \in Kinds :
        \E e \in (CASE k = "s" -> {<<>>}
                    [] k = "q" -> SeqsUpTo(ValSet(i), MaxEntries)
                    [] OTHER   -> SeqsUpTo({[k |-> kk, v |-> vv] : kk \in KeySet(i), vv \in ValSet(i)}, MaxEntries)) :
          \E v \in (IF k = "s" THEN Vals ELSE {"g"}) :
            LET proto == [k |-> k, t |-> [b |-> "str", n |-> "-"], v |-> v, e |-> e, fl |-> FALSE] IN
            /\ ChainOk(i, proto)
+           /\ (HasNodeKid(proto) \/ k \in LeafKinds)
            /\ \E t \in TagsOver(IF HasNodeKid(proto) THEN ParentBases ELSE LeafBases) :
                 nodes' = Append(nodes, [proto EXCEPT !.t = t])
   /\ top' = TopOf(nodes')
